@@ -215,7 +215,7 @@ def _render_body(body, ensure_ascii=True):
 
 
 class Expected(object):
-    __slots__ = ("responses", "log", "single", "top_codes", "kinds")
+    __slots__ = ("responses", "log", "single", "top_codes", "kinds", "overflow")
 
     def __init__(self):
         self.responses = []   # list of dicts: id, kind, value|code, form, contains
@@ -223,6 +223,7 @@ class Expected(object):
         self.single = True
         self.top_codes = None  # set of acceptable codes for a top-level error
         self.kinds = []       # classification of entries
+        self.overflow = False  # the request holds a number that overflowed to inf
 
 
 def is_notification(obj):
@@ -282,7 +283,9 @@ def model(text, server_version, registry, mode):
         exp.kinds.append("malformed")
         return exp
     if not gen.all_finite(parsed):
-        raise Skip()
+        # a standard number spelling that overflows to a non-finite float (1e400): inside the
+        # domain (no non-standard literal is used); echoing it is the known finding below
+        exp.overflow = True
     if not parsed:
         exp.responses.append({"id": None, "kind": "error", "code": -32600, "form": None})
         exp.kinds.append("invalid:empty-value")
@@ -326,7 +329,10 @@ def check_response_object(o, sigprefix="C02"):
     return form
 
 
-def parse_reply(out, sigprefix="C02"):
+OVERFLOW_SIGNATURE = "C02/overflowing-number-echoed-as-nonstandard-literal"
+
+
+def parse_reply(out, sigprefix="C02", overflow=False):
     """-> list of response objects, single flag; '' -> ([], None)"""
     if not isinstance(out, str):
         fail(sigprefix + "/reply-type", "dispatcher returned %s" % type(out).__name__)
@@ -338,6 +344,10 @@ def parse_reply(out, sigprefix="C02"):
         fail(sigprefix + "/reply-not-encodable", "the reply text cannot be encoded as UTF-8 (%s): it cannot be sent" % ex, ascii(out[:300]))
     try:
         got = gen.strict_json_loads(out)
+    except gen.NonStandard as ex:
+        if overflow:
+            fail(OVERFLOW_SIGNATURE, "the request holds a number that overflows to a non-finite float; the reply echoes it as the non-standard literal %s" % ex, out[:300])
+        fail(sigprefix + "/reply-not-json", "reply is not strict JSON: it uses the literal %s" % ex, out[:500])
     except Exception as ex:
         fail(sigprefix + "/reply-not-json", "reply is not strict JSON: %s" % ex, out[:500])
     if isinstance(got, list):
@@ -361,7 +371,7 @@ def compare(out, exp):
         problems.append(Violation(sig, msg, detail))
 
     try:
-        got, single = parse_reply(out)
+        got, single = parse_reply(out, overflow=exp.overflow)
     except Violation as v:
         return [v]
     try:
